@@ -3,6 +3,9 @@
   Property theorems only; helper lemmas are in Qfx/Lemmas.  Clause checklist at the end.
 -/
 import Qfx.Lemmas.Values
+import Qfx.Lemmas.TsShape
+import Qfx.Lemmas.TsRoundTrip
+import Qfx.Lemmas.Decimal
 open Qfx Qfx.Spec
 
 /-! ## int -/
@@ -223,17 +226,63 @@ theorem C14_ts_write_read (p : Prec) (t : Ts) (hv : t.valid = true) :
 /-- non-vacuity: a concrete leap-day instant meets the hypothesis -/
 example : ({ y := 2024, mo := 2, d := 29, h := 23, mi := 59, s := 59, ns := 123456789 } : Ts).valid = true := by decide
 
-/-- full statements not yet proved (kept visible; covered by the correspondence runs and the Spec monitor only):
-    reading an accepted text and writing it back reproduces the text; acceptance = strict FIX grammar. -/
-def C14_ts_read_write_full : Prop :=
-  ∀ (b : Bytes) (t : Ts) (p : Prec), readTs b = .ok (t, p) → writeTs p t = b
-def C14_ts_accept_iff_grammar_full : Prop :=
-  ∀ b : Bytes, (readTs b).isOk = TsGrammar 59 b
+/-- "reading a canonical text and writing it back returns the same text": every accepted timestamp text is canonical —
+    writing the value read, at the precision read, reproduces the text byte for byte (all four precisions) -/
+theorem C14_ts_read_write (b : Bytes) (t : Ts) (p : Prec) (hr : readTs b = .ok (t, p)) : writeTs p t = b :=
+  ts_read_write b t p hr
 
 /-- the pinned original accepted a text outside the grammar (D11): witness, replayed by the val family -/
 theorem C14_ts_original_accepts_comma :
     (readTsOrig (asciiOf "20060102-15:04:05,000")).isOk = true ∧ TsGrammar 60 (asciiOf "20060102-15:04:05,000") = false := by
   decide
+
+/-- acceptance = the strict FIX UTCTimestamp grammar (seconds 00–59), all four precisions, every byte string -/
+theorem C14_ts_accept_iff_grammar (b : Bytes) : (readTs b).isOk = TsGrammar 59 b := by
+  by_cases h17 : b.length = 17
+  · exact ts_accept_17 b h17
+  · by_cases h21 : b.length = 21
+    · exact ts_accept_21 b h21
+    · by_cases h24 : b.length = 24
+      · exact ts_accept_24 b h24
+      · by_cases h27 : b.length = 27
+        · exact ts_accept_27 b h27
+        · simp [readTs, readTsWith, precOfLen, TsGrammar, tsLenOK, h17, h21, h24, h27, Res.isOk]
+
+
+
+
+
+/-! ### decimals (fix_decimal.go / fix_udecimal.go; values ± mag / 10^scale, no exponent notation) -/
+section Decimals
+open Qfx.Dec
+
+/-- write→read: what `FIXDecimal.Write` produces at scale `s` reads back as the value rounded to `s` decimals
+    (the sign of a zero is dropped: `big.Int` has no negative zero) -/
+theorem C14_dec_write_read (d : Dec) (s : Nat) : readDec (writeDec d s) = .ok (normDec (roundDec d s)) :=
+  render_read _
+
+/-- the rounding `Write` applies is round-half-away-from-zero to exactly `s` decimals, for every value and scale -/
+theorem C14_dec_write_rounds_half_away (d : Dec) (s : Nat) : IsRoundHalfAway d (roundDec d s) s := roundDec_spec d s
+
+/-- a value that already has `s` decimals is written and read back unchanged (up to the sign of zero) -/
+theorem C14_dec_write_read_exact (d : Dec) : readDec (writeDec d d.scale) = .ok (normDec d) := by
+  rw [C14_dec_write_read, roundDec_self]
+
+/-- unsigned decimals: `FIXUDecimal.Write` truncates toward zero to exactly `s` decimals and the text reads back as that -/
+theorem C14_udec_write_read (d : Dec) (s : Nat) :
+    readDec (writeUDec d s) = .ok (normDec (truncDec d s)) ∧ IsTruncTowardZero d (truncDec d s) s :=
+  ⟨render_read _, truncDec_spec d s⟩
+
+/-- read→write: a canonical text (one that `Write` can produce) is reproduced byte for byte by reading it and writing
+    the result at its own scale -/
+theorem C14_dec_read_write (d d' : Dec) (h : readDec (render d) = .ok d') : writeDec d' d'.scale = render d := by
+  rw [render_read] at h
+  injection h with h; subst h
+  unfold writeDec; rw [roundDec_self, render_normDec]
+
+#guard (readDec (asciiOf "-12.50")).isOk && writeDec { neg := true, mag := 12345, scale := 3 } 2 == asciiOf "-12.35"
+#guard writeDec { neg := false, mag := 5, scale := 3 } 2 == asciiOf "0.01" && writeUDec { neg := false, mag := 19, scale := 1 } 0 == asciiOf "1"
+end Decimals
 
 /-!
 Clause checklist (properties.jsonl C14 → theorems)
@@ -242,7 +291,8 @@ Clause checklist (properties.jsonl C14 → theorems)
 * original code's panic:  C14_int_original_faults_only_on_empty (D1)
 * boolean:                C14_bool_write_read, C14_bool_read_write, C14_bool_accept_iff_grammar
 * float grammar exactly:  C14_float_accept_iff_grammar (value/shortest repr: strconv, correspondence only)
-* timestamp write→read:   C14_ts_write_read; read→write and grammar: `_full` defs above (not yet theorems)
+* timestamp write→read:   C14_ts_write_read; exactly the grammar: C14_ts_accept_iff_grammar; read→write: C14_ts_read_write
 * string/bytes:           C14_string_identity
-* decimal:                not modelled (third-party arithmetic); Go-side round-trip monitor only
+* decimal:                C14_dec_write_read, C14_dec_write_rounds_half_away, C14_dec_write_read_exact, C14_udec_write_read,
+                          C14_dec_read_write (no exponent notation; udecimal's 19-digit limit: correspondence only)
 -/
